@@ -565,7 +565,7 @@ func runCell(rep *hx.Report, r *rand.Rand, cfg cellCfg, nconn int) {
 			if strings.HasPrefix(cfg.Path, "transfer") {
 				// the transferred path has its own classes: a known finding there must not hide the same failure on the other paths
 				p.Sig += "-transferred"
-			} else if p.Sig != "partial-message-queue-full" {
+			} else {
 				seriousFindings++
 			}
 			rep.Add(hx.Finding{Kind: "oracle", Property: "C14", Signature: p.Sig, What: fmt.Sprintf("[%s %s %s] connection %d: %s", cfg.Path, cfg.Epoll, x.mode, x.plan.Cid, p.What),
